@@ -159,3 +159,12 @@ Require Copia.Proofs.TieRemoteRun.
 Theorem C09_remote_run_is_translation_of_source : TieRemoteRun.remote_run_is_translation.
 Proof. exact TieRemoteRun.remote_run_is_translation_holds. Qed.
 Print Assumptions C09_remote_run_is_translation_of_source.
+
+(** What a push with `--delete` sends is the translation of incremental.rs `apply_remote_deletes` (push arm) as the source
+    has it now: the NUL-terminated list of `<remote_root>/<rel>` for every path of the delete plan, in plan order, and a
+    command that compares the staged byte count with exactly that list's length before `xargs -0 rm` sees it
+    (Gen/PushDeleteGen.v, Proofs/TiePushDelete.v) - the `size` of crash_push_delete_all_or_nothing above. *)
+Require Copia.Proofs.TiePushDelete.
+Theorem C09_push_delete_request_is_translation_of_source : TiePushDelete.push_delete_is_translation.
+Proof. exact TiePushDelete.push_delete_is_translation_holds. Qed.
+Print Assumptions C09_push_delete_request_is_translation_of_source.
